@@ -236,8 +236,14 @@ def t_jax(T):
     T.bounded_block("opt_jax._final_objective stitching", "npars <= 3, every fixed subset, do_stitch on/off; values symbolic", cases, 0)
 
 
+from .BK_backend_ops import TRUSTED as BK_TRUSTED
+TRUSTED = TRUSTED + BK_TRUSTED
+
+
 def tasks(tier):
-    return [("opt_pytorch", t_pytorch), ("opt_tflow", t_tflow), ("opt_jax", t_jax)]
+    # "differentiable primitives" of the three AD backends: their wrapper methods are the tensor operations of the objective
+    from .BK_backend_ops import backend_op_tasks
+    return [("opt_pytorch", t_pytorch), ("opt_tflow", t_tflow), ("opt_jax", t_jax)] + [(n, f) for n, f in backend_op_tasks(tier) if "numpy" not in n]
 
 
 def replay(r):
@@ -245,6 +251,9 @@ def replay(r):
     real shim is compared with the non-differentiating path (value) and with central finite differences (gradient),
     with and without stitching, at points in every interpolation regime"""
     name = r["name"]
+    if (r.get("meta") or {}).get("op") and (r.get("meta") or {}).get("backend"):
+        from .BK_backend_ops import replay_backend_op
+        return replay_backend_op(r)
     backend = "pytorch" if "opt_pytorch" in name else ("tensorflow" if "opt_tflow" in name else ("jax" if "opt_jax" in name else None))
     if backend is None:
         return None
